@@ -110,5 +110,10 @@ func Dis(w uint32) string {
 	if err != nil {
 		return n
 	}
-	return in.Details.String()
+	txt := n
+	func() {
+		defer func() { recover() }()
+		txt = in.Details.String()
+	}()
+	return txt
 }
